@@ -15,10 +15,17 @@ def prepare(run, prop, module, theorems, need_calc=False):
         vlib.build_calc()
     vlib.build_coq(clean=(run.tier == "thorough" and False))
     problems = []
+    broken = vlib.coq_broken_for(module)
+    if broken:
+        problems.append(broken)
     bad = vlib.gate_no_admits()
     if bad:
         problems.append("forbidden declarations in the development: " + "; ".join(bad[:10]))
-    obligations, discharged, axioms, aprobs = vlib.audit_theorems(prop, module, theorems)
+    if broken:
+        # theorems of this property are re-audited only on a development that builds
+        obligations, discharged, axioms, aprobs = len(theorems), 0, {}, []
+    else:
+        obligations, discharged, axioms, aprobs = vlib.audit_theorems(prop, module, theorems)
     problems.extend(aprobs)
     used = sorted({a for l in axioms.values() for a in l})
     chk_note = []
